@@ -1,5 +1,9 @@
 NB = "check not built yet in this round; planned per DESIGN.md section 7 (model checking applies)"
-prop("C01", False, "A", "", "", NB, "7/C01")
+prop("C01", True, "A",
+     "exhaustive enumeration of all call histories up to depth 3 (quick) / 4 (thorough) over a 19-symbol alphabet (2 scenes x 9 detection lists + skip) on the real Sort / BatchSort / VisualSort / BatchVisualSort, 32+ configurations, with a per-call invariant monitor and a reference model of epochs / issued ids / lengths",
+     "Every history of the bounded space is executed on a fresh real tracker (inside the shuttle runtime under the default schedule); each call is checked for one record per detection in order, echoed box / custom id / scene, scene epoch, distinct ids within the call, never-reissued ids, length bookkeeping, and agreement of the record with the stored track.",
+     "Trusted: the monitor's bookkeeping model (engine/src/props/c01.rs). Sequential use only (schedules: C05/C06). Detection lists off the menu and deeper histories are not covered.",
+     "7/C01")
 prop("C02", False, "A+C", "", "", NB, "7/C02")
 prop("C03", False, "A", "", "", NB, "7/C03")
 prop("C04", False, "A", "", "", NB, "7/C04")
